@@ -176,7 +176,7 @@ JudgeHash(ev) ==
       post == [out |-> AbsOut(ev.out, ev.outk), scr |-> AbsScr(ev, pre)]
       ret  == IF ev.ret = "null" THEN RNull ELSE IF ev.ret = "out" THEN ROut ELSE ev.ret
       c    == Call(fn, oc, SzClass(ev.size), pre, post, 0, ev.errno, ret,
-                   Grew(ev), IF Grew(ev) THEN ErasedFirst(ev) ELSE TRUE, ReallocFailed(ev))
+                   Grew(ev), IF Grew(ev) THEN ErasedFirst(ev) ELSE TRUE, ReallocFailed(ev), FailureTokens)
       core == Judge(c)
       \* under an injected fault a failing call is judged as C15; the shape of the failure is the same
       coreV == {V(IF AnyFault(ev) /\ n \in {"FailClosed", "NoStale", "Token", "Wiped"} THEN "C15" ELSE PropOf(n), n) : n \in core}
